@@ -330,6 +330,14 @@ class Model:
                     tgt = self.resolve_global(module, c.args[0].id, _depth + 1)
                     if tgt and tgt[0] == "func":
                         return ("memo_alias", tgt[1], c)
+            # re-binding of another module's name: `from . import _quoters as _q` ... `QUOTER = _q.QUOTER`
+            if len(sts) == 1 and isinstance(sts[0], ast.Assign) and isinstance(sts[0].value, ast.Attribute) and \
+                    isinstance(sts[0].value.value, ast.Name) and _depth < 5 and not hasattr(sts[0], "_unpack"):
+                owner = self.resolve_global(module, sts[0].value.value.id, _depth + 1)
+                if owner and owner[0] == "module" and owner[1] in self.modules:
+                    tgt = self.resolve_global(owner[1], sts[0].value.attr, _depth + 1)
+                    if tgt is not None:
+                        return tgt
             return ("value", module, name, sts)
         if name in mi.imports:
             mod, orig = mi.imports[name]
@@ -337,6 +345,8 @@ class Model:
                 target = mod.lstrip(".")
                 if orig is None:
                     return ("module", target)
+                if target == "" and orig in self.modules:
+                    return ("module", orig)     # from . import _quoters [as _q]
                 if target == "_quoting" and "_quoting" in self.modules and _depth < 3:
                     # the selector module re-exports _Quoter/_Unquoter from one of the two backends
                     return ("class", "_quoting_py", orig)
